@@ -22,7 +22,9 @@ ASSUMPTIONS = ['formatting inside decorators is restricted to the simple {key} g
 
 def run(env, res):
     res.rule = ('directed families (expectation from the property text) first, then seeded random pipelines '
-                '(1-3 pipelines, 1-4 groups, 0-4 steps per group, decorators with p~0.25 each); a case is '
+                '(1-3 pipelines, 1-4 groups, 0-4 steps per group, decorators with p~0.25 each, foreach items incl. '
+                'None/0/\'\'/False/[]/{}, 12% with a malformed group body or sequence item, 35% written in another '
+                'yaml layout: flow style, JSON, first step on line 1, other indentation); a case is '
                 'non-trivial when the model accepts it and it terminates; distinct by canonical program text')
     directed = [('c05', fo.c05_family, env.n(400, 100000))]
     flowcheck.run_streams(env, res, directed, env.n(500, 20000), weights={'fail': 3, 'set': 2},
